@@ -35,7 +35,11 @@ def one(sid):
                 rules = sorted({ln.split('rule ')[1].split()[0] for ln in r.stdout.splitlines() if '  rule ' in ln})
                 fired[pid] = (r.returncode, rules or r.stdout.splitlines()[:1])
         ok = fired.get(prop, (0,))[0] == 1
-        return sid, prop, 'caught' if ok else 'MISSED', fired
+        if '--update-meta' in sys.argv and '--all' in sys.argv:
+            meta['checks_that_fire'] = {k: v[1] for k, v in sorted(fired.items()) if v[0] == 1}
+            json.dump(meta, open(os.path.join(d, 'meta.json'), 'w'), indent=1)
+        anyfire = any(v[0] == 1 for v in fired.values())
+        return sid, prop, 'caught' if ok else ('other-check' if anyfire else 'MISSED'), fired
     finally:
         shutil.rmtree(tmp, ignore_errors=True)
 
@@ -47,7 +51,7 @@ def main():
     bad = 0
     for sid, prop, verdict, fired in res:
         print('%-6s %-4s %-8s %s' % (sid, prop, verdict, fired))
-        bad += verdict != 'caught'
+        bad += verdict == 'MISSED'
     print('%d seeds, %d not caught' % (len(res), bad))
     sys.exit(1 if bad else 0)
 
